@@ -412,6 +412,11 @@ type mAct struct {
 	nSuspOpt  int           // suspensions that may or may not have happened (sibling caught in the middle of a restart)
 	lastRe    time.Duration // instant of the last observed restart, -1 = none
 	suspAt    time.Duration // instant at which a group budget suspended it, -1 = never
+	// restarting: PreStart of a restart has run, the PostStart that ends the restart has not been handled yet.
+	// goakt keeps the suspended flag of the previous failure until the very end of the restart, and the
+	// supervision consumer drops failure signals of an actor that carries it.
+	restarting bool
+	stopping   bool // stopped by the model, PostStop not observed yet
 }
 
 type mPend struct {
@@ -445,6 +450,7 @@ func (p *supPath) key() string {
 	for _, a := range p.a {
 		fmt.Fprintf(&b, "%d,%d,%d,%d,%d,%v,%d,%d,%d,%v,%v;", a.st, a.inc, a.restarts, a.faults, a.lastFault, a.hasFault, a.nSusp, a.nRestEv, a.nReinst, a.deferred, a.expSig)
 		fmt.Fprintf(&b, "%d,%d;", a.nSuspOpt, a.lastRe)
+		fmt.Fprintf(&b, "%v,%v;", a.restarting, a.stopping)
 	}
 	for _, q := range p.pend {
 		fmt.Fprintf(&b, "%d@%d/%v|", q.a, q.due, q.subtree)
@@ -509,6 +515,7 @@ func (p *supPath) addPend(q mPend) {
 }
 
 func (o *supOracle) stopSubtree(p *supPath, m int, comp string, t time.Duration) {
+	p.a[m].stopping = p.a[m].st != stStop
 	p.a[m].st = stStop
 	p.a[m].stopAt = t
 	p.a[m].comp = comp
@@ -578,7 +585,7 @@ func (o *supOracle) effective(p *supPath, x, kind, tag int, t time.Duration) {
 			comp = "budget/" + strings.SplitN(comp, "/", 2)[1]
 			p.trace = append(p.trace, fmt.Sprintf("  fault %d > budget %d within %v: group suspended", n, g.MaxRetries, window))
 			for _, m := range group {
-				if m != x && p.inProgress(m, t) {
+				if m != x && (p.inProgress(m, t) || (p.a[m].restarting && p.a[m].lastRe == t)) {
 					// the group is suspended while a restart of one of its members is in progress:
 					// whether that member ends up suspended or restarted is decided by goroutine order
 					p.overlap = true
@@ -692,6 +699,7 @@ func (o *supOracle) step(p *supPath, e Ev) []*supPath {
 		}
 		p.pend = append(p.pend[:best:best], p.pend[best+1:]...)
 		a.st, a.inc = stRun, e.Inc
+		a.restarting = true
 		a.lastRe = t
 		a.restarts++
 		a.nRestEv++
@@ -709,6 +717,18 @@ func (o *supOracle) step(p *supPath, e Ev) []*supPath {
 		}
 		return []*supPath{p}
 
+	case "poststop-enter":
+		if x := f.idx(e.Actor); x >= 0 {
+			p.a[x].stopping = false
+		}
+		return []*supPath{p}
+
+	case "poststart":
+		if x := f.idx(e.Actor); x >= 0 && e.Inc == p.a[x].inc {
+			p.a[x].restarting = false
+		}
+		return []*supPath{p}
+
 	case "fail":
 		x := f.idx(e.Actor)
 		kind, _, ok := parseFail(e.Aux)
@@ -718,6 +738,34 @@ func (o *supOracle) step(p *supPath, e Ev) []*supPath {
 		a := &p.a[x]
 		inProg := p.inProgress(x, t)
 		switch {
+		case a.st == stRun && !inProg && a.restarting:
+			// the new incarnation fails before its restart has completed: either the supervisor acts, or the
+			// failure is swallowed (no directive applied to a failed handler) - the latter is reported under
+			// its own class when nothing else explains the run
+			p2 := p.clone()
+			o.effective(p, x, kind, e.Tag, t)
+			st := "one-for-one"
+			if f.acts[x].cfg.OneForAll {
+				st = "one-for-all"
+			}
+			p2.trace = append(p2.trace, fmt.Sprintf("t=%v failure of re-initialised %s (PreStart run %d, tag %d) before its restart completed: dropped", t, e.Actor, e.Inc, e.Tag))
+			if p2.soft == nil || p2.soft.class == "restart-count-mismatch" {
+				p2.soft = &supDeath{class: "failure-dropped-while-restart-completes", comp: st, at: e.Seq, trace: p2.trace,
+					detail: fmt.Sprintf("%s (PreStart run %d) failed handling message tag %d at t=%v, after its PreStart had re-run but before the restart had completed; no directive was applied (%s expected): the failure was swallowed", e.Actor, e.Inc, e.Tag, t, dirNames[f.acts[x].cfg.refDirective(kind)])}
+			}
+			// third possibility: the supervisor acts and leaves the actor suspended (no rule, escalation, budget
+			// exhausted), then the end of the still running restart clears that suspension
+			p3 := p.clone()
+			if p3.a[x].st == stSusp && !p3.inProgress(x, 1<<62) {
+				p3.a[x].st = stRun
+				p3.trace = append(p3.trace, fmt.Sprintf("t=%v ... and the completing restart of %s erased the suspension", t, e.Actor))
+				if p3.soft == nil || p3.soft.class == "restart-count-mismatch" {
+					p3.soft = &supDeath{class: "suspension-erased-by-completing-restart", comp: st, at: e.Seq, trace: p3.trace,
+						detail: fmt.Sprintf("%s (PreStart run %d) failed handling message tag %d at t=%v before its restart had completed; the supervisor left it suspended (%s) but it is running again: the end of restartSubtree cleared the new suspension", e.Actor, e.Inc, e.Tag, t, p3.a[x].comp)}
+				}
+				return []*supPath{p, p2, p3}
+			}
+			return []*supPath{p, p2}
 		case a.st == stRun && !inProg:
 			o.effective(p, x, kind, e.Tag, t)
 			return []*supPath{p}
@@ -739,7 +787,7 @@ func (o *supOracle) step(p *supPath, e Ev) []*supPath {
 			p2.a[x].deferred = append(p2.a[x].deferred, [2]int{kind, e.Tag})
 			p2.trace = append(p2.trace, fmt.Sprintf("t=%v failure of suspended %s (tag %d): deferred until its restart completes", t, e.Actor, e.Tag))
 			return []*supPath{p, p2}
-		case a.st == stStop && a.stopAt == t && a.inc > 0:
+		case a.st == stStop && (a.stopAt == t || a.stopping) && a.inc > 0:
 			// the actor is being stopped at this very instant: its failure may still be picked up (it is
 			// suspended, then stopped anyway) or dropped
 			p2 := p.clone()
@@ -869,7 +917,7 @@ func (o *supOracle) step(p *supPath, e Ev) []*supPath {
 
 func supRelevant(k string) bool {
 	switch k {
-	case "prestart-enter", "fail", "panic-signal", "reinstate", "obs", "poststop-enter":
+	case "prestart-enter", "fail", "panic-signal", "reinstate", "obs", "poststop-enter", "poststart":
 		return true
 	}
 	return false
@@ -890,7 +938,7 @@ func supFinish(c *Ctx) {
 	}
 	maxPaths := 1
 	for _, e := range f.s.Log {
-		if !supRelevant(e.Kind) || e.Kind == "poststop-enter" {
+		if !supRelevant(e.Kind) {
 			continue
 		}
 		var next []*supPath
